@@ -835,7 +835,7 @@ func c03AttrPairs(c *Ctx) {
 	r := c.R
 	h := c03Header{st: []profile.ValueType{{Type: "samples", Unit: "count"}, {Type: "cpu", Unit: "ns"}},
 		pt: &profile.ValueType{Type: "cpu", Unit: "ns"}, period: 10, time: 100, dur: 5}
-	for _, mu := range c03Muts() {
+	for mi, mu := range c03Muts() {
 		w := c03BaseWorld()
 		mu.f(w)
 		a := []c03Use{{0, []int64{1, 100}}}
@@ -844,6 +844,9 @@ func c03AttrPairs(c *Ctx) {
 		rboth := []c03Use{{1, []int64{20, 2000}}, {0, []int64{2, 200}}}
 		tag := "attr:" + mu.name
 		for idmode := 0; idmode < 4; idmode++ {
+			if c.Tier != "thorough" && idmode%2 != mi%2 { // quick tier: two of the four id layouts per attribute
+				continue
+			}
 			// the two entities in one profile
 			c03Emit(c, "attr-one", []*profile.Profile{c03Instantiate(r, w, h, both, idmode, false, true)}, false, tag)
 			// one each in two profiles, second at another load address and other ids
@@ -998,15 +1001,69 @@ func c03SharedRandom(c *Ctx, n int) {
 	}
 }
 
+// byte-level comparison of sampleKey with the model's skey_bytes
+func c03KeyCases(c *Ctx, n int) {
+	r := c.R
+	long := make([]byte, 300)
+	for i := range long {
+		long[i] = byte('a' + i%26)
+	}
+	strs := []string{"", "a", "k", "\x00", "\x01\x02", "\xff", string(long[:127]), string(long[:128]), string(long), "héllo"}
+	ids := []uint64{1, 2, 127, 128, 129, 255, 256, 16383, 16384, 1 << 21, 1<<32 + 5, 1<<56 - 1, 1 << 56, 1<<63 - 1, 1 << 63, math.MaxUint64}
+	nums := []int64{0, 1, -1, 127, 128, 300, math.MaxInt64, math.MinInt64, -128, 1 << 35}
+	for i := 0; i < n; i++ {
+		s := &profile.Sample{}
+		for d := r.Intn(5); d > 0; d-- {
+			s.Location = append(s.Location, &profile.Location{ID: PickU(r, ids)})
+		}
+		if r.P(2, 3) {
+			s.Label = map[string][]string{}
+			for j := r.Intn(4); j > 0; j-- {
+				var vs []string
+				for q := r.Intn(3); q > 0; q-- {
+					vs = append(vs, PickS(r, strs))
+				}
+				s.Label[PickS(r, strs)] = vs
+			}
+		}
+		if r.P(2, 3) {
+			s.NumLabel = map[string][]int64{}
+			s.NumUnit = map[string][]string{}
+			for j := r.Intn(4); j > 0; j-- {
+				var vs []int64
+				for q := r.Intn(3); q > 0; q-- {
+					vs = append(vs, PickI(r, nums))
+				}
+				k := PickS(r, strs)
+				s.NumLabel[k] = vs
+				if r.Bool() {
+					var us []string
+					for q := r.Intn(3); q > 0; q-- {
+						us = append(us, PickS(r, strs))
+					}
+					s.NumUnit[k] = us
+				}
+			}
+		}
+		key := profile.VerifSampleKey(s)
+		bs := make([]int64, len(key))
+		for j := 0; j < len(key); j++ {
+			bs[j] = int64(key[j])
+		}
+		c.Case("samplekey", L(S("skey"), DumpSample(s)), L(S("key"), Zs(bs)), len(s.Label)+len(s.NumLabel) > 0, "op:skey")
+	}
+}
+
 func runC03(c *Ctx) {
+	c03KeyCases(c, c.Budget(100, 5000))
 	c03Regressions(c)
 	c03HeaderCases(c)
 	c03AttrPairs(c)
-	for i := c.Budget(700, 40000); i > 0; i-- {
+	for i := c.Budget(450, 40000); i > 0; i-- {
 		c03RandomList(c, "pool", false)
 	}
-	for i := c.Budget(150, 8000); i > 0; i-- {
+	for i := c.Budget(100, 8000); i > 0; i-- {
 		c03RandomList(c, "pool-big", true)
 	}
-	c03SharedRandom(c, c.Budget(150, 6000))
+	c03SharedRandom(c, c.Budget(100, 6000))
 }
